@@ -12,8 +12,21 @@ def explicit_job(job, evs):
     return j
 
 
+def conformance(work, files, tag="k"):
+    """TraceKismet: is every recorded plain-cache operation a path through Kismet.tla's control flow?"""
+    res = validate_traces(work, "TraceKismet", files, {"monitors": []}, tag=tag)
+    ops = 0
+    drifts = []
+    for r in res:
+        for v in r["verdicts"]:
+            ops += v.get("ops", 0)
+            if v.get("drift"):
+                drifts.append(dict(job=v["job"], run=v["run"], **v["drift"][0]))
+    return dict(ops=ops, drifts=drifts, states=sum(r["states"] for r in res))
+
+
 def trace_check(work, out, jobs, monitors, spec="TraceProps", tag="t", extra_env=None, fsmis_fatal=False,
-                key_of=None, nworkers=None):
+                key_of=None, nworkers=None, conform=False):
     """Runs jobs, validates traces, reports violations into `out` (an Outcome).
     Returns stats dict."""
     t0 = time.time()
@@ -54,8 +67,16 @@ def trace_check(work, out, jobs, monitors, spec="TraceProps", tag="t", extra_env
         for j, rno, evs in split_runs(tf):
             samples.append(dict(job=j, run=rno, sched=evs[-1].get("sched"), events=slim_events(evs, 12)))
             break
-    return dict(runs=nruns, events=nevents, states=states, trace_s=t1 - t0, tlc_s=t2 - t1, violations=nviol,
-                fsmodel_mismatches=fsmis, samples=samples, files=files)
+    st = dict(runs=nruns, events=nevents, states=states, trace_s=t1 - t0, tlc_s=t2 - t1, violations=nviol,
+              fsmodel_mismatches=fsmis, samples=samples, files=files, conf_ops=0, drifts=[])
+    if conform:
+        c = conformance(work, files, tag=tag + "k")
+        st["conf_ops"] = c["ops"]
+        st["drifts"] = c["drifts"]
+        st["states"] += c["states"]
+        for d in c["drifts"][:5]:
+            print("MODEL-DRIFT job=%s run=%s seq=%s at %s: %s (got %s)" % (d["job"], d["run"], d.get("seq"), d.get("pcl"), d.get("why"), d.get("got")), flush=True)
+    return st
 
 
 def replay(work, path):
